@@ -227,6 +227,11 @@ pub struct W3Run {
     pub faults_used: Vec<String>,
     /// restart a crashed station at this time (fresh station going online)
     pub restart_at: Vec<Option<i64>>,
+    /// forged telegrams: (index of the transmission after which it is injected, bytes); sent by the
+    /// environment port one synchronisation pause after that transmission
+    pub forged: Vec<(usize, Vec<u8>)>,
+    /// forged token offers seen so far: (sa, da, count)
+    pub forged_offers: Vec<(u8, u8, u8)>,
 }
 
 const ENV_PORT_OFFSET: usize = 0;
@@ -276,6 +281,8 @@ impl W3Run {
             horizon_us: cfg.horizon_us,
             faults_used: vec![],
             restart_at: vec![None; n],
+            forged: vec![],
+            forged_offers: vec![],
         }
     }
 
@@ -431,8 +438,40 @@ impl W3Run {
                     }
                 }
             }
-            self.c01_observe(&tx, sender_addr, frame.as_ref());
+            let is_env = (tx.sender as usize) >= self.cfg.stations.len();
+            if is_env && frame.as_ref().map(|f| f.is_token()).unwrap_or(false) && self.forged_tokens_active() {
+                // a forged token offer from the environment: it confers the right to transmit only when the
+                // same station offers it a second time
+                if let Some(rc::RFrame::Token { da, sa }) = &frame {
+                    let mut second = false;
+                    let mut found = false;
+                    for o in self.forged_offers.iter_mut() {
+                        if o.0 == *sa && o.1 == *da {
+                            o.2 += 1;
+                            found = true;
+                            second = o.2 >= 2;
+                        }
+                    }
+                    if !found {
+                        self.forged_offers.push((*sa, *da, 1));
+                    }
+                    if second {
+                        self.c01.holder = Some(*da);
+                    }
+                    self.c01.prev = Some((*sa, frame.clone().unwrap(), tx.start, tx.end));
+                }
+            } else {
+                self.c01_observe(&tx, sender_addr, frame.as_ref());
+            }
             self.log.push((sender_addr, frame, tx.start, tx.end));
+            // (11 bit times after the trigger: nobody may initiate before 33 bit times, and by then the first
+            // forged byte is visible as bus activity, so no station can innocently collide with it)
+            let gap = self.bus.bits_us_floor(11) + 2;
+            let due: Vec<Vec<u8>> = self.forged.iter().filter(|(n, _)| *n == tx.idx).map(|(_, b)| b.clone()).collect();
+            for (k, b) in due.into_iter().enumerate() {
+                let t = self.bus.us_ceil(tx.end) + gap + k as i64 * (gap + self.bus.bits_us_floor(11 * b.len() as i64) + 1);
+                self.pending_responses.push((t, 254, b));
+            }
         }
         if self.bus.trace.len() > 4096 {
             self.bus.trace.clear();
@@ -515,6 +554,10 @@ impl W3Run {
             m.last_pass = Some((*sa, *da, tx.end));
         }
         m.prev = Some((a, frame, tx.start, tx.end));
+    }
+
+    fn forged_tokens_active(&self) -> bool {
+        !self.forged.is_empty()
     }
 
     /// Run to the horizon.
